@@ -114,6 +114,7 @@ fn c08_alphabet(thorough: bool) -> Vec<Step> {
             Step::Abort(1, Spec::Foci { n: 1, seg: 1, tr: Some((0xFF, 0)), rep: 0xFFFF, div: 8, ss: 21760, size: 200, seed: 5 }),
             Step::Abort(1, Spec::Mod { seg: 1, tr: Some((0xFF, 0)), rep: 0xFFFF, div: 4, n: 1000, seed: 6 }),
             Step::Abort(1, Spec::GainStm { mode: 0, seg: 1, tr: Some((0xFF, 0)), rep: 0xFFFF, div: 8, size: 5, seed: 7 }),
+            Step::Abort(1, Spec::Foci { n: 1, seg: 1, tr: None, rep: 0xFFFF, div: 8, ss: 21760, size: 200, seed: 8 }),
             Step::Send(Spec::SilSteps(20, 5, true)),
             Step::Send(Spec::SwapGain(0, (0xFF, 0))),
         ]);
@@ -149,7 +150,16 @@ fn run_seq_c08(out: &mut Out, seq: &[Step], tag: &str) {
         // a send cut after its first frame leaves the CPU's segment belief ahead of the FPGA's request
         // (DESIGN F8b): one root cause, one key
         let cut = seq.iter().any(|s| matches!(s, Step::Abort(..)));
-        let key = if cut { "C08:cut-send-leaves-belief-ahead-of-request".to_string() } else { format!("C08:{}:{tag}", desc.join("/")) };
+        // a cut send followed by SwapSegment::Gain to the half-written segment is a different root cause
+        // (change_gain_segment trusts the CPU's stale mode/cycle copies and does not run the guard)
+        let via_gain_swap = what.contains("`swapgain");
+        let key = if cut && via_gain_swap {
+            "C08:cut-send-then-gain-swap-skips-guard".to_string()
+        } else if cut {
+            "C08:cut-send-leaves-belief-ahead-of-request".to_string()
+        } else {
+            format!("C08:{}:{tag}", desc.join("/"))
+        };
         out.violation(key, what, log);
     }
 }
@@ -177,7 +187,19 @@ pub fn run_c08(args: &Args) {
         ],
         "F8b",
     );
-    out.count_n("corpus", 2);
+    // F8c: a FociSTM without transition cut after BEGIN, strict silencer accepted against the playing gain,
+    // then SwapSegment::Gain to the half-written segment
+    run_seq_c08(
+        &mut out,
+        &[
+            lax.clone(),
+            Step::Abort(1, Spec::Foci { n: 1, seg: 1, tr: None, rep: 0xFFFF, div: 40, ss: 21760, size: 200, seed: 5 }),
+            Step::Send(Spec::SilSteps(10, 80, true)),
+            Step::Send(Spec::SwapGain(1, (0xFF, 0))),
+        ],
+        "F8c",
+    );
+    out.count_n("corpus", 3);
 
     // bounded-exhaustive: lax start, then every sequence of `depth` letters
     let depth = 3;
@@ -335,7 +357,25 @@ pub fn run_c19(args: &Args) {
         &[0, 1_500_000_000],
         "F17",
     );
-    out.count_n("corpus", 2);
+    // F18 (found by the swap-chain invariant proof): stale start offset of a re-written pending segment + Ext
+    run_seq_c19(
+        &mut out,
+        &[
+            // finite-loop 1000-pattern FociSTM to S1, GPIO pin 0 transition (pending)
+            Step::Send(Spec::Foci { n: 1, seg: 1, tr: Some((0x02, 0)), rep: 5, div: 10, ss: 21760, size: 1000, seed: 1 }),
+            // GPIO-in 0 raised; the clock advance below makes the transition fire at pattern index 500
+            Step::Send(Spec::GpioIn(1)),
+            // back to S0 (infinite loop, Immediate)
+            Step::Send(Spec::SwapGain(0, (0xFF, 0))),
+            // finite-loop 10-pattern FociSTM to S1, SyncIdx: pending; S1's start offset 500 is now stale
+            Step::Send(Spec::Foci { n: 1, seg: 1, tr: Some((0x00, 0)), rep: 5, div: 10, ss: 21760, size: 10, seed: 2 }),
+            // infinite-loop FociSTM to the *current* segment S0 with Ext (accepted: the CPU believes S1 is current)
+            Step::Send(Spec::Foci { n: 1, seg: 0, tr: Some((0xF0, 0)), rep: 0xFFFF, div: 10, ss: 21760, size: 2, seed: 3 }),
+        ],
+        &[0, 125_000_000, 0, 0, 2_500_000],
+        "F18",
+    );
+    out.count_n("corpus", 3);
 
     // bounded-exhaustive depth 2 (quick: strided) / depth 2 full + depth 3 strided (thorough)
     let n = alpha.len();
